@@ -218,6 +218,9 @@ def m_adaptor(ex, p, call, k):
         st = stage('deref')
     elif meth in ('map', 'filter', 'filter_map'):
         st = stage(meth, call.args[1])
+    elif meth in ('flat_map', 'inspect'):
+        # flat_map: the closure runs once per element; what it returns is flattened (its elements are not modelled further)
+        st = stage('map', call.args[1])
     elif meth in ('take', 'skip'):
         st = stage(meth, call.args[1])
     elif meth == 'enumerate':
@@ -395,7 +398,7 @@ def m_len_collected(ex, p, call, k):
 ITER_MODELS = [
     (R(r' as IntoIterator>::into_iter$'), m_into_iter),
     (R(r'(HashMap|BTreeMap|HashSet|BTreeSet|Vec|VecDeque)::(iter|iter_mut|values|values_mut|keys|into_values|into_keys|drain)$|(^|::)slice::(<impl[^>]*>::)?(iter|iter_mut)$'), m_coll_iter),
-    (R(r' as Iterator>::(map|filter|filter_map|cloned|copied|take|skip|enumerate|by_ref|peekable|fuse)$'), m_adaptor),
+    (R(r' as Iterator>::(map|filter|filter_map|flat_map|inspect|cloned|copied|take|skip|enumerate|by_ref|peekable|fuse)$'), m_adaptor),
     (R(r' as Iterator>::next$'), m_next),
     (R(r' as Iterator>::collect$'), m_collect),
     (R(r' as Iterator>::fold$'), m_fold),
